@@ -10,6 +10,7 @@ CONSTANTS
   CfgResetOnDisconnect = FALSE
   CfgCheckLatency = TRUE
   CfgHbOverride = FALSE
+  CfgResetSeqTime = FALSE
   MaxIn = 5
   MaxOut = 4
 VIEW View
